@@ -584,8 +584,14 @@ protected:
     // XXX: similar precision as the interval domain
     for (auto kv : e) {
       const variable_t &pivot = kv.second;
-      interval_t i = compute_residual(e, pivot) / interval_t(kv.first);
+      interval_t res = compute_residual(e, pivot);
+      interval_t i = res / interval_t(kv.first);
       if (auto k = i.singleton()) {
+        if (!((interval_t(*k) * interval_t(kv.first)) == res)) {
+          // the division is not exact (e.g., 2*x != 1): no value of
+          // pivot can be excluded
+          continue;
+        }
         add_univar_disequation(pivot, *k);
       }
     }
